@@ -27,7 +27,8 @@ pub fn scratch_dir(name: &str) -> PathBuf {
 }
 
 pub fn external_factory(opts: Vec<String>) -> Box<SatSolverFactoryFn> {
-    Box::new(move || Box::new(ExternalSatSolver::new(fake_sat().to_string(), opts.clone())))
+    // at most 300 SAT calls (= processes) per solver object: a diverging search becomes a panic
+    Box::new(move || Box::new(crate::staticq::Limited { inner: ExternalSatSolver::new(fake_sat().to_string(), opts.clone()), calls: 0, limit: 300 }))
 }
 
 #[derive(Default)]
